@@ -6,6 +6,7 @@ import (
 	"encoding/base64"
 	"fmt"
 	"math/rand/v2"
+	"time"
 
 	"github.com/beevik/etree"
 	saml2 "github.com/russellhaering/gosaml2"
@@ -133,8 +134,68 @@ func buildSigned(sp *saml2.SAMLServiceProvider, kind string, a OutArgs) (string,
 	return doc.WriteToString()
 }
 
+// runC13SharedKeyStore: one *KeyStore object (the application keeps a single handle to its signing key) set on several
+// providers that are configured differently; each provider's messages declare and use that provider's settings.
+func runC13SharedKeyStore(c *mon.Ctx, now time.Time) {
+	n := c.N(40, 1000)
+	for k := 0; k < n; k++ {
+		cs := c.Begin("shared-keystore", k)
+		if cs == nil {
+			continue
+		}
+		r := cs.Rand()
+		cert := sim.Wide(sim.K(pick(r, []string{"spsign", "spsign2", "spsignec"})), now)
+		ks := &saml2.KeyStore{Signer: cert.Key.Signer, Cert: cert.DER}
+		algs := SigAlgsFor(cert.Key)
+		canons := CanonChoices()
+		type prov struct {
+			sp  *saml2.SAMLServiceProvider
+			alg SigAlgChoice
+			cn  CanonChoice
+		}
+		var provs []prov
+		for i := 0; i < 3; i++ {
+			sp, _, _ := NewSP(now)
+			sp.SignAuthnRequests = true
+			p := prov{sp: sp, alg: algs[(k+i*2)%len(algs)], cn: canons[(k+i*3)%len(canons)]}
+			sp.SignAuthnRequestsAlgorithm, sp.SignAuthnRequestsCanonicalizer = p.alg.URI, p.cn.Obj
+			if i%2 == 0 {
+				sp.SetSPSigningKeyStore(ks)
+			} else {
+				sp.SetSPKeyStore(ks)
+			}
+			provs = append(provs, p)
+		}
+		cs.Desc("key=%s providers: %s/%s %s/%s %s/%s", cert.Key.Name, provs[0].alg.URI, provs[0].cn.Name, provs[1].alg.URI, provs[1].cn.Name, provs[2].alg.URI, provs[2].cn.Name)
+		cs.Nontrivial(fmt.Sprintf("%s/%d", cs.Description(), k))
+		bad := false
+		for round := 0; round < 2 && !bad; round++ {
+			for _, i := range r.Perm(3) {
+				p := provs[i]
+				kind := outKinds[r.IntN(len(outKinds))]
+				xml, err := buildSigned(p.sp, kind, OutArgs{NameID: "user@example.org", SessionIndex: "_s", Status: saml2.StatusCodeSuccess, ReqID: "_r"})
+				if err != nil {
+					cs.Violation("build-error", "provider %d: %v", i, err)
+					bad = true
+					break
+				}
+				if key, msg := VerifyEnveloped(xml, cert, p.alg.Hash, p.cn.Effective(), now); key != "" {
+					cs.Outcome("bad:" + key)
+					cs.Violation(key, "provider %d of 3 sharing one key store (round %d, %s): %s", i, round, kind, msg)
+					bad = true
+					break
+				}
+			}
+		}
+		if !bad {
+			cs.Outcome("each-provider-its-own-settings")
+		}
+	}
+}
+
 func runC13(c *mon.Ctx) {
 	now := BaseTime(c.Seed)
+	runC13SharedKeyStore(c, now)
 	kcs := AllKeyCfgs()
 	canons := CanonChoices()
 	n := c.N(2500, 120000)
@@ -165,6 +226,13 @@ func runC13(c *mon.Ctx) {
 			// the SP's own clock is years past (or before) the validity of its signing certificate: it signs with it all
 			// the same, so it keeps reporting and publishing it
 			ksp.Clk.Set(now.AddDate(pick(r, []int{12, -12, 30}), 0, 0))
+		}
+		if r.IntN(6) == 0 {
+			// a setter call that is refused (a key store without a signer, e.g. a half-initialised HSM handle) leaves
+			// the configuration as it was: what signs, and what is reported and published, is unchanged
+			hsm := sim.Wide(sim.K("atk1"), now)
+			sp.SetSPSigningKeyStore(&saml2.KeyStore{Signer: nil, Cert: hsm.DER})
+			sp.SetSPKeyStore(&saml2.KeyStore{Signer: nil, Cert: hsm.DER})
 		}
 		sp.SignAuthnRequests = true
 		sp.SignAuthnRequestsAlgorithm = alg.URI
